@@ -686,8 +686,9 @@ def spliceChecks (checks : List (A × Val)) : Option VarKw → List (A × Val)
 
 /-! ### class shapes: where the per-instance accessor takes the type parameters of the class from
 
-`is_instance_of_generic_class` is `Generic in type(self).__bases__`; `check_instance_of_generic_class_and_get_type_vars` zips the
-"type variables" of the class with the arguments of `__orig_class__` BY INDEX (`type_vars[type_var] = actual_types[i]`: an
+`is_instance_of_generic_class` (`genericTest`, generated) decides whether the instance is one of a generic class;
+`check_instance_of_generic_class_and_get_type_vars` zips the "type variables" of the class (`genericParamsFrom`, generated) with the
+arguments of `__orig_class__` BY INDEX (`type_vars[type_var] = actual_types[i]`: an
 IndexError when there are fewer arguments than "type variables", raised in the accessor, outside every `try` of the checker).
 What typing makes of a class statement — `__bases__`, `__parameters__`, `__orig_bases__` — is observed, not modelled. -/
 
@@ -701,11 +702,14 @@ structure Shape where
 /-- the arguments of `__orig_class__` as the accessor finds them (none: the attribute is absent — not subscripted, or inside `__init__`) -/
 def Shape.actual (sh : Shape) : Option (List A) := if sh.inInit then none else sh.declared
 
-def Shape.typeVariables (sh : Shape) : Option (List A) :=
-  match genericParamsFrom with
+/-- the "type variables" of the class as the accessor reads them, for a given source (the generated one: `Shape.typeVariables`) -/
+def Shape.typeVariablesWith (src : ParamSrc) (sh : Shape) : Option (List A) :=
+  match src with
   | .firstOrigBase => sh.origBases.head?.map (·.2)
   | .genericEntry => (sh.origBases.find? (·.1)).map (·.2)
   | .parameters => some (sh.params.map A.tv)
+
+def Shape.typeVariables (sh : Shape) : Option (List A) := sh.typeVariablesWith genericParamsFrom
 
 /-- `for i, type_var in enumerate(type_variables): type_vars[type_var] = actual_types[i]`; `none`: IndexError.
     A "type variable" that is no TypeVar (`str` in `Dict[str, T]`) becomes a key no annotation ever asks for. -/
@@ -715,25 +719,33 @@ def zipGenerics : List A → List A → TVMap → Option TVMap
   | k :: ks, x :: xs, m => zipGenerics ks xs (match k with | .tv t => m.set t x | _ => m)
 
 /-- what `check_instance_of_generic_class_and_get_type_vars` returns; `none`: an exception that is no PedanticException -/
-def Shape.generics (sh : Shape) : Option TVMap :=
+def Shape.genericsWith (src : ParamSrc) (sh : Shape) : Option TVMap :=
   match sh.actual with
   | none => some []
-  | some acts => (match sh.typeVariables with
+  | some acts => (match sh.typeVariablesWith src with
       | none => none
       | some tvs => zipGenerics tvs acts [])
 
-/-- `is_instance_of_generic_class(instance)` -/
-def Shape.isGeneric (sh : Shape) : Bool :=
-  match genericTest with
+def Shape.generics (sh : Shape) : Option TVMap := sh.genericsWith genericParamsFrom
+
+/-- `is_instance_of_generic_class(instance)` for a given test (the generated one: `Shape.isGeneric`) -/
+def Shape.isGenericWith (t : GenericTest) (sh : Shape) : Bool :=
+  match t with
   | .directBase => sh.genericInBases
   | .directBaseOrParameters => sh.genericInBases || !sh.params.isEmpty
   | .parameters => !sh.params.isEmpty
 
-/-- the store of a method call on an instance of the class; `none`: the accessor raises (every call ends with that exception) -/
-def Shape.kind (sh : Shape) : Option StoreKind :=
+def Shape.isGeneric (sh : Shape) : Bool := sh.isGenericWith genericTest
+
+/-- the store of a method call on an instance of the class; `none`: the accessor raises (every call ends with that exception).
+    `src`, `t`: where the accessor takes the type parameters from / what makes a class generic for it — `Shape.kind` is this function at
+    the facts translated from the current source; the witnesses of repaired findings evaluate it at the former facts. -/
+def Shape.kindWith (src : ParamSrc) (t : GenericTest) (sh : Shape) : Option StoreKind :=
   if genericsFromOrigClass then
-    (if sh.isGeneric then sh.generics.map (StoreKind.genericInstance sh.params) else some .resetEachAccess)
-  else some (if sh.isGeneric then .genericInstance sh.params [] else .resetEachAccess)
+    (if sh.isGenericWith t then (sh.genericsWith src).map (StoreKind.genericInstance sh.params) else some .resetEachAccess)
+  else some (if sh.isGenericWith t then .genericInstance sh.params [] else .resetEachAccess)
+
+def Shape.kind (sh : Shape) : Option StoreKind := sh.kindWith genericParamsFrom genericTest
 
 /-- a top-level step on an instance whose accessor raises: the first check of the call lets the exception through -/
 def runTopE (env : Env) (escapes : Bool) (t : Top) (s : Stores) : (Out × List (Option Out)) × Stores :=
